@@ -141,6 +141,23 @@ def gen_comm(r, sid, klass=None, with_limits=False, with_time=False, big=False):
             ops.append("co")
             ops.append("s%d" % (2 * MS))
         reads_to_eof(rc)
+    elif klass == "utf8":
+        # text for the text-returning variants: valid characters of every length, characters cut short, invalid
+        # bytes, in any order, cut anywhere by the child's write sizes (and by limit_size below)
+        frags = [b"a", b"xyz ", b"\xc3\xa9", b"\xe2\x82\xac", b"\xf0\x9f\x98\x80", b"\xe2\x82", b"\xe2", b"\xf0\x9f\x98", b"\xf0\x9f",
+                 b"\xf0", b"\xc3", b"\xff", b"\x80", b"\xc0\x80", b"\xed\xa0\x80", b"\xf4\x90\x80\x80", b"\xe0\x80\x80", b"\n", b"\x00"]
+        for stream in ("o", "e"):
+            data = b"".join(r.choice(frags) for _ in range(r.choice([1, 2, 5, 20, 60])))
+            pos = 0
+            while pos < len(data):
+                n = r.choice([1, 2, 3, 5, 50])
+                ops.append("w%s:%s" % (stream, C.enc_units(list(data[pos:pos + n]))))
+                pos += n
+            if stream == "o":
+                nout[0] += len(data)
+            else:
+                nerr[0] += len(data)
+        reads_to_eof(rc)
     else:  # silent
         ops.append("s%d" % r.choice([10 * MS, 200 * MS, 5000 * MS]))
         if r.chance(1, 2):
@@ -172,6 +189,12 @@ def gen_comm(r, sid, klass=None, with_limits=False, with_time=False, big=False):
         reads = extra + reads
         if not with_limits:
             reads.append(["b", "-", str(r.choice(tls[4:]))])
+    if klass == "utf8":
+        # the text-returning variants only; read_string() also under a size limit that cuts characters
+        if r.chance(1, 2):
+            reads = [[r.choice(["S", "s"]), "-", "-"]]
+        else:
+            reads = [["s", str(r.choice([1, 2, 3, 4, 7])), "-"] for _ in range(r.choice([2, 5, 12]))] + [["s", "-", "-"]]
     if not reads:
         mode = r.choice(["b", "b", "s", "B", "S"])
         reads = [[mode, "-", "-"]]
